@@ -885,6 +885,11 @@ impl Axecutor {
             stack_top -= 8;
         }
 
+        // The stack is empty once the whole frame has been popped: a RET only counts as the
+        // top-level return there (same convention as `init_stack`), not at the entry RSP, where a
+        // RET that matches the program's first CALL would otherwise end the run
+        let empty_stack_top = stack_top + 8;
+
         for val in stack_layout.iter().rev() {
             self.mem_write_64(stack_top, *val)?;
             stack_top -= 8;
@@ -903,7 +908,7 @@ impl Axecutor {
             stack_top,
             self.stack_top
         );
-        self.stack_top = stack_top;
+        self.stack_top = empty_stack_top;
 
         Ok(stack_start)
     }
